@@ -67,7 +67,7 @@ Theorem select_is_its_segments kin wa_ sq_ ali c withs d sels from joins wh hv g
 Proof.
   intros Hs. rewrite rquery_QSel. unfold sel_text, sel_segs, finish.
   destruct (name_from sub_count 0 from) as [fnames n1].
-  destruct (name_joins (base_tables from) (src_names from fnames ++ map fst withs) n1 joins) as [jnames n2].
+  destruct (name_joins (base_tables from) (src_names from fnames) n1 joins) as [jnames n2].
   destruct sels as [|s0 sels']; [exfalso; apply Hs; reflexivity|].
   set (SL := s0 :: sels').
   repeat match goal with
